@@ -38,6 +38,40 @@ whose axes have distinct origins; laplacian_filter_3d.py:99 ring reset of filter
 object -> VIOLATION filter-constant-not-fixed / filter-depends-on-buffer-garbage (2nd and later calls).
 (A harness bug was made and fixed while adding the re-check of earlier filter objects: closures over loop variables bind late.)
 
+Workload dimensions added later (kernel level; every one has a monitor counter and a REQUIRE minimum; NO existing assertion or
+tolerance was changed, every new execution is judged by the module's own monitors, never bitwise against another layout):
+  (a) array layout -- every third call hands ALL caller arrays over as non-contiguous views of the same values (interior of a padded
+      parent / every second cell, non-unit inner stride / column-major, drawn per array; results read back with np.ascontiguousarray):
+      Brinkmann (outputs, field, target, indicator; the numba Lagrangian variant with pad/step views only, so that numba compiles one
+      extra 'A'-layout specialisation per scalar signature instead of one per layout combination), Heaviside (level set, output),
+      damping (the field; the coordinate fields given to the generator for the 'tall' and 'sibling-dx' kernels), filters (the field;
+      every third filter object gets non-contiguous WORK BUFFERS).  The filters' bitwise buffer-garbage differential (4.) keeps one
+      layout within each group of compared executions.
+  (b) histories of TEMPORARY views on one kernel object -- K = 3..4 calls in a tight loop, every array argument is stack[name][k];
+      compared afterwards: Brinkmann scalar / vector / fixed-value vector / Lagrangian (own field, target, indicator and penalty per
+      call), Heaviside (phi, -phi, the same values in another cell order, its negative), damping (pool and tall kernels), filters
+      (four plane waves; buffers dirtied once before the loop, not between the calls, to keep the loop tight).
+  (c) exactly-zero multipliers -- Brinkmann with penalty EXACTLY 0 must return the field in every cell whatever the indicator (the
+      convex weight lambda chi / (1 + lambda chi) is 0; compared like chi == 0: bitwise in float64, 16 eps |f| in float32; mechanism
+      brinkmann-zero-penalty-changes-field); Lagrangian variant additionally with dt exactly 0 and a positive coefficient.  Does not
+      apply to the Heaviside (blend width > 0), damping (width 0 = documented bypass, already covered) and filter (order >= 1, no
+      scalar argument) parts.
+  (d) other-precision predecessors -- before the kernels of a shard are generated the same generator is called for the OTHER precision
+      with otherwise identical options and the result called once: all Brinkmann generators (+ the numba function), the Heaviside
+      generator for the first width and for every width that is exactly representable in float32 and passed as a typed scalar
+      (np.float32(w) == np.float64(w), equal hashes), the first damping kernel of width >= 2 (same width, shape, spacing, origins), the
+      first filter object (same order, type, field type, shape).
+  Self-test of (a)-(d) (tools/mut.sh, quick, seed 0; "before" = this module at the commit preceding the change, run from a git worktree):
+  penalise_field_boundary_2d.py  x-front broadcast target field[:, :width] -> np.ascontiguousarray(field)[:, :width] (a copy, hence a lost
+                                 write, exactly when the field is not C-contiguous)         before HELD; now damping-ring!=0, damping-zone>inner-edge-max
+  brinkmann_penalise_2d.py       vector wrappers fetch the x component of vector_field from a module-level dict keyed by id(vector_field)
+                                 (sed: field=_V.setdefault(id(vector_field), vector_field[x_axis_idx]))      before HELD; now brinkmann-out-of-[f,t] (+ chi0 / monotone)
+  brinkmann_penalise_3d.py       penalty_factor * char_field -> (penalty_factor + 0.001) * char_field in numerator and denominator (still convex,
+                                 monotone, == field at chi 0, -> target)                   before HELD; now brinkmann-zero-penalty-changes-field only
+  char_func_from_level_set_2d.py generator memoised in a module-level dict keyed by (blend_width, num_threads, fixed_grid_size), i.e. by
+                                 the typed scalar without real_t (patch)                    before HELD; now heaviside-raises (kernel of the other precision served)
+  No false alarm occurred while adding (a)-(d): constants stay fixed bitwise and the checkerboard is annihilated exactly on every layout.
+
 Tolerances (K * eps_t * magnitude; measured max err/tol on the unchanged tree + F6.diff, seeds 0..5 quick,
 0..1 thorough, both precisions):
   brinkmann bounds / monotone / limit   32 eps max(|f|,|t|)              measured <= 0.063
@@ -105,7 +139,9 @@ RULE = (
     "pool >= 2w+3 (kernels bake width/dx/extent), field classes noise / edge-small / edge-only / "
     "zone-big / const; filters: orders 1..4 x {multiplicative, convolution} x {scalar, vector}, "
     "constants, checkerboard, plane waves k = pi m/8 on the lattice {0..8}^3 (quick: even m plus random), "
-    "3 garbage histories.  distinct = (operator, variant, dim, precision, width/order, input class, sub-check)."
+    "3 garbage histories.  Every third call passes non-contiguous views of the caller's arrays, every kernel object also runs a "
+    "tight-loop history on temporary views stack[k], Brinkmann includes penalty exactly 0, an other-precision predecessor is generated "
+    "first.  distinct = (operator, variant, dim, precision, width/order, input class, sub-check)."
 )
 ASSUMPTIONS = [
     "IEEE float64 division by exactly 1.0 is exact (chi == 0 bitwise in float64); float32 uses rcpps+Newton under -Ofast, held to 16 eps |f|",
@@ -150,8 +186,45 @@ REQUIRE = {
     "brinkmann_shapes_x_longest_or_equal": 1,
     "heaviside_generators_width_as_real_t": 4,
     "heaviside_shapes_first_axis_longer_than_x": 20,
+    # workload dimensions (a)-(d): array layout, temporary-view histories, exactly-zero multipliers, other-precision predecessors
+    "brinkmann_calls_with_noncontiguous_array_arguments": 100,
+    "brinkmann_lagrangian_calls_with_noncontiguous_array_arguments": 100,
+    "brinkmann_calls_with_temporary_view_arguments": 40,
+    "brinkmann_zero_penalty_cells": 10000,
+    "brinkmann_lagrangian_calls_dt_exactly_zero": 12,
+    "heaviside_call_pairs_with_noncontiguous_array_arguments": 16,
+    "heaviside_calls_with_temporary_view_arguments": 80,
+    "damping_calls_on_noncontiguous_field_views": 40,
+    "damping_calls_on_temporary_views": 60,
+    "damping_kernels_from_noncontiguous_coordinate_fields": 8,
+    "filter_calls_on_noncontiguous_field_views": 500,
+    "filter_calls_on_temporary_views": 32,
+    "filter_objects_with_noncontiguous_work_buffers": 4,
+    "other_precision_predecessors": 20,
+    "other_precision_predecessors_equal_typed_width": 4,
 }
 LAMBDAS = [0.0] + [10.0**p for p in range(13)]
+
+
+class _Layout:
+    """array layout of the caller's arrays: every ``period``-th call hands ALL array arguments over as NON-contiguous views holding
+    the same values (util.noncontiguous_copy: interior of a sentinel-padded parent / every second cell of a parent, non-unit inner
+    stride / column-major; the mode is drawn per array, so one call mixes layouts).  Results are read back with
+    np.ascontiguousarray and judged by the SAME monitors as the contiguous executions -- never bitwise against another layout."""
+
+    def __init__(self, rng, rec, counter, period=3, modes=("pad", "step", "fortran")):
+        self.rng, self.rec, self.counter, self.period, self.modes, self.n = rng, rec, counter, period, modes, 0
+
+    def next(self):
+        self.n += 1
+        if self.n % self.period != 2 % self.period:
+            return lambda a: a
+        self.rec.count(self.counter)
+        return lambda a: util.noncontiguous_copy(self.rng, a, self.modes[int(self.rng.integers(len(self.modes)))])
+
+
+def _other(real_t):
+    return np.float32 if np.dtype(real_t) == np.float64 else np.float64
 
 
 def shards(tier, seed):
@@ -256,6 +329,18 @@ def _brink_monitor(rec, label, run, f, t, chi, real_t, cls, meta, lambdas=LAMBDA
                 rec.violation("brinkmann-chi0-changes-field", f"{label} lambda={lam:g}: output differs from the field where chi == 0 {meta}", {"meta": meta, "f": f, "t": t, "chi": chi, "lam": lam, "out": out})
         if one.any():
             rec.count("brinkmann_chi1_cells", int(one.sum()))
+        # penalty EXACTLY zero: the convex weight lambda*chi/(1 + lambda*chi) vanishes in every cell, whatever the indicator
+        # => out == f everywhere (same comparison as for chi == 0: bitwise in float64, 16 eps |f| in float32)
+        if lam == 0:
+            rec.count("brinkmann_zero_penalty_cells", O.size)
+            if np.dtype(real_t) == np.float64:
+                ok = util.bits_equal(out, np.broadcast_to(f, F.shape).astype(real_t))
+            else:
+                rr = float(np.max(np.abs(O - F) / (16 * eps * np.abs(F) + 1e-300)))
+                rec.stat("brinkmann_zero_penalty_f32_ulp", rr)
+                ok = rr <= 1
+            if not ok:
+                rec.violation("brinkmann-zero-penalty-changes-field", f"{label} lambda=0: output differs from the field although the penalty is exactly zero {meta}", {"meta": meta, "f": f, "t": t, "chi": chi, "lam": lam, "out": out})
         # monotone approach to the target
         d = np.abs(O - T)
         if prev is not None:
@@ -286,6 +371,29 @@ def _brink(sh, rec):
     rng = util.rng_for(sh["seed"], ID, sh["name"])
     thorough = sh["tier"] != "quick"
     gen = spne.gen_brinkmann_penalise_pyst_kernel_2d if d == 2 else spne.gen_brinkmann_penalise_pyst_kernel_3d
+    pen = BrinkmannBoundaryForcing.brinkmann_penalise_lag_grid_velocity_field
+    # predecessors of the OTHER precision, generated with otherwise identical options and called once BEFORE the kernels under
+    # observation exist (anything a generator keeps per option set without the precision in the key would now serve these)
+    other_t = _other(real_t)
+    try:
+        so = (5, 7) if d == 2 else (4, 5, 6)
+        mk = lambda lead=(): (rng.standard_normal((*lead, *so)) + 2).astype(other_t)
+        gens = [gen] + ([spne.gen_brinkmann_penalise_vs_fixed_val_pyst_kernel_2d] if d == 2 else [])
+        for ig, g_ in enumerate(gens):
+            ko = g_(real_t=other_t, num_threads=2, field_type="scalar")
+            kov = g_(real_t=other_t, num_threads=2, field_type="vector")
+            if ig == 0:
+                ko(penalised_field=mk(), field=mk(), char_field=np.ones(so, other_t), penalty_field=mk(), penalty_factor=other_t(2.0))
+                kov(penalised_vector_field=mk((d,)), penalty_factor=other_t(2.0), char_field=np.ones(so, other_t), penalty_vector_field=mk((d,)), vector_field=mk((d,)))
+            else:
+                ko(penalised_field=mk(), field=mk(), char_field=np.ones(so, other_t), penalty_factor=other_t(2.0), penalty_val=1.5)
+                kov(penalised_vector_field=mk((d,)), penalty_factor=other_t(2.0), char_field=np.ones(so, other_t), penalty_val=(1.5, -0.5), vector_field=mk((d,)))
+            rec.count("other_precision_predecessors", 2)
+        pen(np.zeros((d, 7), other_t), np.ones((d, 7), other_t), np.ones((d, 7), other_t), other_t(2.0), other_t(0.5))
+        rec.count("other_precision_predecessors")
+    except Exception as e:
+        rec.note(f"other-precision predecessor failed: {type(e).__name__}: {e}")
+    lay = _Layout(rng, rec, "brinkmann_calls_with_noncontiguous_array_arguments")
     ks = gen(real_t=real_t, num_threads=2, field_type="scalar")
     kv = gen(real_t=real_t, num_threads=2, field_type="vector")
     if d == 2:
@@ -323,11 +431,13 @@ def _brink(sh, rec):
                 cls = (d, sh["dtype"], pname, cname)
 
                 def run_s(lam, f=f, t=t, chi=chi):
-                    out = util.sentinel_like(rng, shape, real_t)
+                    v = lay.next()
+                    out = v(util.sentinel_like(rng, shape, real_t))
                     f0, t0, c0 = f.copy(), t.copy(), chi.copy()
+                    f, t, chi = v(f), v(t), v(chi)
                     ks(penalised_field=out, field=f, char_field=chi, penalty_field=t, penalty_factor=lam_arg(lam))
                     rec.check(util.bits_equal(f, f0) and util.bits_equal(t, t0) and util.bits_equal(chi, c0), "brinkmann-input-modified", f"scalar kernel modified an input {meta}")
-                    return out
+                    return np.ascontiguousarray(out)
 
                 _brink_monitor(rec, "scalar", run_s, f, t, chi, real_t, cls, meta)
         # vector wrapper: one indicator for all components, components of different classes
@@ -338,9 +448,10 @@ def _brink(sh, rec):
             tv = np.ascontiguousarray(np.stack([p[2] for p in sel]))
 
             def run_v(lam):
-                out = util.sentinel_like(rng, fv.shape, real_t)
-                kv(penalised_vector_field=out, penalty_factor=lam_arg(lam), char_field=chi, penalty_vector_field=tv, vector_field=fv)
-                return out
+                v = lay.next()
+                out = v(util.sentinel_like(rng, fv.shape, real_t))
+                kv(penalised_vector_field=out, penalty_factor=lam_arg(lam), char_field=v(chi), penalty_vector_field=v(tv), vector_field=v(fv))
+                return np.ascontiguousarray(out)
 
             _brink_monitor(rec, "vector", run_v, fv, tv, chi[None], real_t, (d, sh["dtype"], "+".join(p[0] for p in sel), cname), meta, lambdas=LAMBDAS[::2] + [1e12] if not thorough else LAMBDAS)
         # versus fixed value (2-D only)
@@ -350,35 +461,72 @@ def _brink(sh, rec):
                 for pname, f, _t in ((pr[0],) if reduced else (pr[0], pr[1], pr[6])):
                     for val in (0.0, float(real_t(rng.standard_normal() * 5)), float(real_t(np.max(np.abs(f)) * 2)), -1e3):
                         def run_fs(lam, f=f, chi=chi, val=val):
-                            out = util.sentinel_like(rng, shape, real_t)
-                            kfs(penalised_field=out, field=f, char_field=chi, penalty_factor=lam_arg(lam), penalty_val=val)
-                            return out
+                            v = lay.next()
+                            out = v(util.sentinel_like(rng, shape, real_t))
+                            kfs(penalised_field=out, field=v(f), char_field=v(chi), penalty_factor=lam_arg(lam), penalty_val=val)
+                            return np.ascontiguousarray(out)
 
                         _brink_monitor(rec, "fixed-val-scalar", run_fs, f, np.asarray(real_t(val)), chi, real_t, (d, sh["dtype"], pname, cname, "val0" if val == 0 else "val"), meta, lambdas=LAMBDAS if thorough else [0.0, 1.0, 1e2, 1e5, 1e9, 1e12])
                 fv = np.ascontiguousarray(np.stack([pr[0][1], pr[7][1]]))
                 vals = (float(real_t(rng.standard_normal() * 4)), float(real_t(-rng.uniform(0.5, 9))))
 
                 def run_fv(lam):
-                    out = util.sentinel_like(rng, fv.shape, real_t)
-                    kfv(penalised_vector_field=out, penalty_factor=lam_arg(lam), char_field=chi, penalty_val=vals, vector_field=fv)
-                    return out
+                    v = lay.next()
+                    out = v(util.sentinel_like(rng, fv.shape, real_t))
+                    kfv(penalised_vector_field=out, penalty_factor=lam_arg(lam), char_field=v(chi), penalty_val=vals, vector_field=v(fv))
+                    return np.ascontiguousarray(out)
 
                 _brink_monitor(rec, "fixed-val-vector", run_fv, fv, np.array(vals, real_t)[:, None, None], chi[None], real_t, (d, sh["dtype"], "noise+same-sign", cname), meta, lambdas=LAMBDAS[::2] + [1e12] if not thorough else LAMBDAS)
+        # histories of TEMPORARY views on the same kernel objects: K calls in a tight loop, every array argument is stack[name][k]
+        # (a fresh view object of different memory per call whose id() CPython recycles), each call with its own field / target /
+        # indicator / penalty; judged afterwards by the same monitor
+        K = 4
+        hist = [("scalar", ks, ()), ("vector", kv, (d,))] + ([("fixed-val-vector", kfv, (d,))] if d == 2 else [])
+        for label, kern, lead in hist:
+            pr = _ft_pairs(rng, (*lead, *shape), real_t)
+            sel = [pr[int(i)] for i in rng.choice(len(pr), size=K, replace=False)]
+            lams = [LAMBDAS[int(i)] for i in rng.integers(0, len(LAMBDAS), size=K)]
+            S = {"out": util.sentinel_like(rng, (K, *lead, *shape), real_t).copy(), "f": np.stack([p_[1] for p_ in sel]),
+                 "t": np.stack([p_[2] for p_ in sel]), "chi": np.stack([chis[int(i)][1] for i in rng.integers(0, len(chis), size=K)])}
+            vals = [(float(real_t(rng.standard_normal() * 4)), float(real_t(-rng.uniform(0.5, 9)))) for _ in range(K)]
+            args = [lam_arg(lam) for lam in lams]
+            try:
+                if label == "scalar":
+                    for k in range(K):
+                        kern(penalised_field=S["out"][k], field=S["f"][k], char_field=S["chi"][k], penalty_field=S["t"][k], penalty_factor=args[k])
+                elif label == "vector":
+                    for k in range(K):
+                        kern(penalised_vector_field=S["out"][k], penalty_factor=args[k], char_field=S["chi"][k], penalty_vector_field=S["t"][k], vector_field=S["f"][k])
+                else:
+                    for k in range(K):
+                        kern(penalised_vector_field=S["out"][k], penalty_factor=args[k], char_field=S["chi"][k], penalty_val=vals[k], vector_field=S["f"][k])
+            except Exception as e:
+                rec.violation("brinkmann-raises", f"{label} history of temporary views: {type(e).__name__}: {e} {meta}", {"meta": meta})
+                continue
+            for k in range(K):
+                tk = S["t"][k] if label != "fixed-val-vector" else np.array(vals[k], real_t)[:, None, None]
+                ck = S["chi"][k] if not lead else S["chi"][k][None]
+                _brink_monitor(rec, label, lambda lam, k=k: S["out"][k], S["f"][k], tk, ck, real_t, (d, sh["dtype"], "temporary-view-history"),
+                               {**meta, "history_call": f"{k + 1} of {K} with temporary views of different memory"}, lambdas=[lams[k]])
+                rec.count("brinkmann_calls_with_temporary_view_arguments")
     # Lagrangian numba variant: (f + c dt t)/(1 + c dt); indicator == 1 on every marker, lambda = c dt
     pen = BrinkmannBoundaryForcing.brinkmann_penalise_lag_grid_velocity_field
+    layl = _Layout(rng, rec, "brinkmann_lagrangian_calls_with_noncontiguous_array_arguments", modes=("pad", "step"))
     for nm in ([1, 7, 64] if not thorough else [1, 2, 3, 7, 64, 501]):
         shp = (d, nm)
         meta = {"dim": d, "dtype": sh["dtype"], "markers": nm}
         for pname, f, t in _ft_pairs(rng, shp, real_t):
             for dtv in (1.0, float(real_t(rng.uniform(1e-4, 1e-1)))):
                 def run_l(lam, f=f, t=t, dtv=dtv):
-                    out = util.sentinel_like(rng, shp, real_t)
+                    v = layl.next()
+                    out = v(util.sentinel_like(rng, shp, real_t))
+                    f, t = v(f), v(t)
                     if dtv == 1.0:  # python floats, as the class passes them
                         pen(out, f, t, float(lam), 1.0)
                     else:
                         pen(out, f, t, real_t(lam / dtv), real_t(dtv))
                     rec.count("brinkmann_lagrangian_calls")
-                    return out
+                    return np.ascontiguousarray(out)
 
                 _brink_monitor(rec, "lagrangian", run_l, f, t, np.ones(shp, real_t), real_t, (d, sh["dtype"], pname, "dt1" if dtv == 1.0 else "dt"), meta, lambdas=LAMBDAS if dtv == 1.0 else [0.0, 1.0, 1e3, 1e6, 1e9, 1e12])
         # coefficient 0  <=>  indicator 0: field unchanged
@@ -392,6 +540,29 @@ def _brink(sh, rec):
             return out
 
         _brink_monitor(rec, "lagrangian-coeff0", run_0, f, t, np.zeros(shp, real_t), real_t, (d, sh["dtype"], "coeff0"), meta, lambdas=[0.0, 1.0, 1e3])
+
+        # dt EXACTLY zero with a positive coefficient: lambda = c dt = 0, field unchanged
+        def run_d0(lam, f=f, t=t):
+            out = util.sentinel_like(rng, shp, real_t)
+            pen(out, f, t, real_t(lam + 0.5), real_t(0.0))
+            rec.count("brinkmann_lagrangian_calls")
+            rec.count("brinkmann_lagrangian_calls_dt_exactly_zero")
+            return out
+
+        _brink_monitor(rec, "lagrangian-dt0", run_d0, f, t, np.zeros(shp, real_t), real_t, (d, sh["dtype"], "dt0"), meta, lambdas=[0.0, 1.0, 1e3])
+        # history of temporary views (markers of K bodies kept in one array each)
+        K = 4
+        pr = _ft_pairs(rng, shp, real_t)
+        sel = [pr[int(i)] for i in rng.choice(len(pr), size=K, replace=False)]
+        lams = [LAMBDAS[int(i)] for i in rng.integers(0, len(LAMBDAS), size=K)]
+        S = {"out": util.sentinel_like(rng, (K, *shp), real_t).copy(), "f": np.stack([p_[1] for p_ in sel]), "t": np.stack([p_[2] for p_ in sel])}
+        for k in range(K):
+            pen(S["out"][k], S["f"][k], S["t"][k], float(lams[k]), 1.0)
+        for k in range(K):
+            rec.count("brinkmann_lagrangian_calls")
+            rec.count("brinkmann_calls_with_temporary_view_arguments")
+            _brink_monitor(rec, "lagrangian", lambda lam, k=k: S["out"][k], S["f"][k], S["t"][k], np.ones(shp, real_t), real_t, (d, sh["dtype"], "temporary-view-history"),
+                           {**meta, "history_call": k + 1}, lambdas=[lams[k]])
 
 
 # ------------------------------------------------------------------------------------------------
@@ -417,7 +588,22 @@ def _charfn(sh, rec):
         sub = [pool[(off + 3 * j) % len(pool)] for j in range(10)]
     widths = [0.125, 0.3, 1e-3, 7.7] + [float(np.round(rng.uniform(0.01, 3.0), 3)) for _ in range(6 if thorough else 1)] + sub
     rec.count("heaviside_blend_widths", len(widths))
+    lay = _Layout(rng, rec, "heaviside_call_pairs_with_noncontiguous_array_arguments")
+    other_t = _other(real_t)
     for iw, bw in enumerate(widths):
+        # predecessor of the OTHER precision with the numerically equal blend width (same argument style, same thread count), generated
+        # and called once before the kernel under observation: for the first width and for every width that is exactly representable in
+        # float32 and handed over as a typed scalar (np.float32(w) == np.float64(w) and both hash alike)
+        if iw == 0 or (iw >= 4 and float(np.float32(bw)) == bw):
+            try:
+                ko = gen(blend_width=(other_t(bw) if iw >= 4 else bw), real_t=other_t, num_threads=2)
+                po = (rng.uniform(-1.5, 1.5, (5, 6) if d == 2 else (4, 5, 6)) * bw).astype(other_t)
+                ko(char_func_field=np.zeros_like(po), level_set_field=po)
+                rec.count("other_precision_predecessors")
+                if iw >= 4:
+                    rec.count("other_precision_predecessors_equal_typed_width")
+            except Exception as e:
+                rec.note(f"other-precision predecessor failed: {type(e).__name__}: {e}")
         try:
             # the random widths are handed over as real_t scalars, the fixed ones as python floats
             k = gen(blend_width=(real_t(bw) if iw >= 4 else bw), real_t=real_t, num_threads=2)
@@ -449,69 +635,88 @@ def _charfn(sh, rec):
             # sortedness must be visible to the monitor only: the kernel sees a permuted array
             perm = rng.permutation(n)
             phi_in = np.ascontiguousarray(phi[perm].reshape(shape))
-            H = util.sentinel_like(rng, shape, real_t)
-            Hm = util.sentinel_like(rng, shape, real_t)
+            v = lay.next()  # every third pair of calls: level set and output are non-contiguous views
+            H = v(util.sentinel_like(rng, shape, real_t))
+            Hm = v(util.sentinel_like(rng, shape, real_t))
             try:
-                k(char_func_field=H, level_set_field=phi_in)
-                k(char_func_field=Hm, level_set_field=np.ascontiguousarray(-phi_in))
+                k(char_func_field=H, level_set_field=v(phi_in))
+                k(char_func_field=Hm, level_set_field=v(np.ascontiguousarray(-phi_in)))
             except Exception as e:
                 rec.violation("heaviside-raises", f"{type(e).__name__}: {e} {meta}", {"meta": meta})
                 rec.case(None)
                 continue
-            rec.case((d, sh["dtype"], bw, kind), sample=meta if rep == 0 else None, n=2)
-            h = np.empty(n)
-            hm = np.empty(n)
-            h[perm] = H.reshape(-1).astype(np.float64)
-            hm[perm] = Hm.reshape(-1).astype(np.float64)
-            p = phi.astype(np.float64)
-            rec.count("heaviside_cells", n)
-            wit = {"meta": meta, "phi": phi_in, "H": H}
-            if not (np.all(np.isfinite(h)) and np.all(np.isfinite(hm))):
-                rec.violation("heaviside-nonfinite", f"{meta}", wit)
-                continue
-            r = float(max(np.max(-h), np.max(h - 1), np.max(-hm), np.max(hm - 1)) / (16 * eps))
-            rec.stat("heaviside_range", r)
-            if r > 1:
-                rec.violation("heaviside-outside-[0,1]", f"min {h.min()!r} max {h.max()!r} ({r:.3g} tol) {meta}", wit)
-            dd = np.diff(h)
-            r = float(np.max(-dd) / (16 * eps)) if dd.size else 0.0
-            rec.stat("heaviside_monotone", r)
-            if r > 1:
-                i = int(np.argmin(dd))
-                rec.violation("heaviside-decreasing", f"H({p[i]!r})={h[i]!r} > H({p[i + 1]!r})={h[i + 1]!r} {meta}", wit)
-            beyond_hi = p > bmax
-            beyond_lo = p < -bmax
-            rec.count("heaviside_cells_beyond_width", int(beyond_hi.sum() + beyond_lo.sum()))
-            if not (np.all(h[beyond_hi] == 1.0) and np.all(h[beyond_lo] == 0.0) and np.all(hm[beyond_hi] == 0.0) and np.all(hm[beyond_lo] == 1.0)):
-                rec.violation("heaviside-!=0|1-beyond-width", f"values strictly beyond the blend width are not exactly 0/1 {meta}", wit)
-            r = float(np.max(np.abs(h + hm - 1.0)) / (16 * eps))
-            rec.stat("heaviside_symmetry", r)
-            if r > 1:
-                i = int(np.argmax(np.abs(h + hm - 1.0)))
-                rec.violation("heaviside-H(phi)+H(-phi)!=1", f"phi={p[i]!r}: H={h[i]!r} H(-phi)={hm[i]!r} {meta}", wit)
-            # edge probes: +-width exactly and one ulp either side
-            for e in edges:
-                i = int(np.searchsorted(phi, e))
-                assert phi[i] == e
-                want = 0.0 if e < 0 else 1.0
-                rec.count("heaviside_edge_probes")
-                rr = abs(h[i] - want) / (16 * eps)
-                rec.stat("heaviside_edge", rr)
-                if rr > 1:
-                    rec.violation("heaviside-edge-value", f"H({float(e)!r}) = {h[i]!r}, expected {want} to rounding {meta}", wit)
-            # smooth joints: H(-w + h) <= 2 (h/w)^2, 1 - H(w - h) <= 2 (h/w)^2
-            for jv in joints:
-                i = int(np.searchsorted(phi, jv))
-                x = 1.0 - abs(float(jv)) / bw
-                dev = h[i] if jv < 0 else 1.0 - h[i]
-                rec.count("heaviside_joint_probes")
-                rr = dev / (2 * x * x + 16 * eps)
-                rec.stat("heaviside_joint", rr)
-                # informational only: the property states monotonicity, range, the 0/1 plateaus and H(phi)+H(-phi)=1; C1 smoothness at
-                # the joints is NOT part of the statement, so a failing ratio here is recorded (stat "heaviside_joint") but never a verdict
-                # (the exact sine-Heaviside formula is C13's business).
-                if rr > 1:
-                    rec.count("heaviside_joint_not_C1_informational")
+            runs = [(np.ascontiguousarray(H), np.ascontiguousarray(Hm), perm, phi_in, meta)]
+            if rep == 0:
+                # history of TEMPORARY views on this kernel object: four calls in a tight loop (phi, -phi, the same sorted values in
+                # another cell order, its negative), level set and output of call j are stack[j] of one owning array each
+                perm2 = rng.permutation(n)
+                phi_in2 = np.ascontiguousarray(phi[perm2].reshape(shape))
+                L = np.stack([phi_in, -phi_in, phi_in2, -phi_in2])
+                O_ = util.sentinel_like(rng, L.shape, real_t).copy()
+                try:
+                    for j in range(4):
+                        k(char_func_field=O_[j], level_set_field=L[j])
+                except Exception as e:
+                    rec.violation("heaviside-raises", f"history of temporary views: {type(e).__name__}: {e} {meta}", {"meta": meta})
+                else:
+                    rec.count("heaviside_calls_with_temporary_view_arguments", 4)
+                    mh = {**meta, "history": "temporary views of different memory"}
+                    runs += [(O_[0], O_[1], perm, phi_in, mh), (O_[2], O_[3], perm2, phi_in2, mh)]
+            for H, Hm, perm, phi_in, meta in runs:
+                rec.case((d, sh["dtype"], bw, kind) + (("temporary-view-history",) if "history" in meta else ()), sample=meta if rep == 0 and "history" not in meta else None, n=2)
+                h = np.empty(n)
+                hm = np.empty(n)
+                h[perm] = H.reshape(-1).astype(np.float64)
+                hm[perm] = Hm.reshape(-1).astype(np.float64)
+                p = phi.astype(np.float64)
+                rec.count("heaviside_cells", n)
+                wit = {"meta": meta, "phi": phi_in, "H": H}
+                if not (np.all(np.isfinite(h)) and np.all(np.isfinite(hm))):
+                    rec.violation("heaviside-nonfinite", f"{meta}", wit)
+                    continue
+                r = float(max(np.max(-h), np.max(h - 1), np.max(-hm), np.max(hm - 1)) / (16 * eps))
+                rec.stat("heaviside_range", r)
+                if r > 1:
+                    rec.violation("heaviside-outside-[0,1]", f"min {h.min()!r} max {h.max()!r} ({r:.3g} tol) {meta}", wit)
+                dd = np.diff(h)
+                r = float(np.max(-dd) / (16 * eps)) if dd.size else 0.0
+                rec.stat("heaviside_monotone", r)
+                if r > 1:
+                    i = int(np.argmin(dd))
+                    rec.violation("heaviside-decreasing", f"H({p[i]!r})={h[i]!r} > H({p[i + 1]!r})={h[i + 1]!r} {meta}", wit)
+                beyond_hi = p > bmax
+                beyond_lo = p < -bmax
+                rec.count("heaviside_cells_beyond_width", int(beyond_hi.sum() + beyond_lo.sum()))
+                if not (np.all(h[beyond_hi] == 1.0) and np.all(h[beyond_lo] == 0.0) and np.all(hm[beyond_hi] == 0.0) and np.all(hm[beyond_lo] == 1.0)):
+                    rec.violation("heaviside-!=0|1-beyond-width", f"values strictly beyond the blend width are not exactly 0/1 {meta}", wit)
+                r = float(np.max(np.abs(h + hm - 1.0)) / (16 * eps))
+                rec.stat("heaviside_symmetry", r)
+                if r > 1:
+                    i = int(np.argmax(np.abs(h + hm - 1.0)))
+                    rec.violation("heaviside-H(phi)+H(-phi)!=1", f"phi={p[i]!r}: H={h[i]!r} H(-phi)={hm[i]!r} {meta}", wit)
+                # edge probes: +-width exactly and one ulp either side
+                for e in edges:
+                    i = int(np.searchsorted(phi, e))
+                    assert phi[i] == e
+                    want = 0.0 if e < 0 else 1.0
+                    rec.count("heaviside_edge_probes")
+                    rr = abs(h[i] - want) / (16 * eps)
+                    rec.stat("heaviside_edge", rr)
+                    if rr > 1:
+                        rec.violation("heaviside-edge-value", f"H({float(e)!r}) = {h[i]!r}, expected {want} to rounding {meta}", wit)
+                # smooth joints: H(-w + h) <= 2 (h/w)^2, 1 - H(w - h) <= 2 (h/w)^2
+                for jv in joints:
+                    i = int(np.searchsorted(phi, jv))
+                    x = 1.0 - abs(float(jv)) / bw
+                    dev = h[i] if jv < 0 else 1.0 - h[i]
+                    rec.count("heaviside_joint_probes")
+                    rr = dev / (2 * x * x + 16 * eps)
+                    rec.stat("heaviside_joint", rr)
+                    # informational only: the property states monotonicity, range, the 0/1 plateaus and H(phi)+H(-phi)=1; C1 smoothness at
+                    # the joints is NOT part of the statement, so a failing ratio here is recorded (stat "heaviside_joint") but never a verdict
+                    # (the exact sine-Heaviside formula is C13's business).
+                    if rr > 1:
+                        rec.count("heaviside_joint_not_C1_informational")
 
 
 # ------------------------------------------------------------------------------------------------
@@ -588,6 +793,29 @@ def _damp_jobs(d, widths, thorough):
     return jobs
 
 
+def _damp_frac(d, role, ijob):
+    """per-axis origin offsets (fractions of the axis length, array-axis order (z,) y, x).  Pool jobs of even index (and the siblings
+    of the last pool kernel) use the common origin 0 for every axis (cell centres from dx/2); the others give every axis its OWN
+    origin -- x from 0, y from -0.37 L_y, z centred about 0 -- so that an x/y/z grid start or end taken from the wrong coordinate
+    field shows.  Offsets stay inside the extent (|coordinate| <= L), hence the rounding model of the ring tolerance is unchanged."""
+    distinct = (role == "pool" and ijob % 2 == 1) or role == "tall" or role == "sibling-origin"
+    frac = ([-0.37, 0.0] if d == 2 else [-0.5, -0.37, 0.0]) if distinct else [0.0] * d
+    if role == "sibling-origin":
+        frac = [0.4, -0.13] if d == 2 else [0.21, 0.4, -0.13]
+    return distinct, frac
+
+
+def _damp_grid(shape, dx, frac, real_t):
+    axes = [((np.arange(n) + 0.5) * dx + fr * n * dx).astype(real_t) for n, fr in zip(shape, frac)]
+    return [np.ascontiguousarray(a) for a in np.meshgrid(*axes, indexing="ij")][::-1]  # x, y(, z)
+
+
+def _damp_gen(spne, d, w, dx_arg, g, real_t, var):
+    if d == 2:
+        return spne.gen_penalise_field_boundary_pyst_kernel_2d(width=w, dx=dx_arg, x_grid_field=g[0], y_grid_field=g[1], real_t=real_t, num_threads=2)
+    return spne.gen_penalise_field_boundary_pyst_kernel_3d(width=w, dx=dx_arg, x_grid_field=g[0], y_grid_field=g[1], z_grid_field=g[2], real_t=real_t, num_threads=2, field_type=var)
+
+
 def _damp(sh, rec):
     import sopht.numeric.eulerian_grid_ops as spne
 
@@ -597,18 +825,29 @@ def _damp(sh, rec):
     rng = util.rng_for(sh["seed"], ID, sh["name"])
     thorough = sh["tier"] != "quick"
     kept = {}
-    for ijob, (w, shape, dx, role, variants) in enumerate(_damp_jobs(d, sh["widths"], thorough)):
-            # coordinate origin: pool jobs of even index (and the siblings of the last pool kernel) use the common origin 0 for
-            # every axis (cell centres from dx/2); the others give every axis its OWN origin -- x from 0, y from -0.37 L_y, z
-            # centred about 0 -- so that an x/y/z grid start or end taken from the wrong coordinate field shows.  Offsets stay
-            # inside the extent (|coordinate| <= L), hence the rounding model of the ring tolerance is unchanged.
-            distinct = (role == "pool" and ijob % 2 == 1) or role == "tall" or role == "sibling-origin"
-            frac = ([-0.37, 0.0] if d == 2 else [-0.5, -0.37, 0.0]) if distinct else [0.0] * d  # array-axis order (z,) y, x
+    jobs = _damp_jobs(d, sh["widths"], thorough)
+    lay = _Layout(rng, rec, "damping_calls_on_noncontiguous_field_views")
+    # predecessor of the OTHER precision: the first pool kernel of width >= 2 with the same width, grid shape, spacing, origins, thread
+    # count and field type, generated and called once before any kernel of this shard exists
+    other_t = _other(real_t)
+    for ijob, (w, shape, dx, role, variants) in enumerate(jobs):
+        if w >= 2 and role == "pool":
+            try:
+                ko = _damp_gen(spne, d, w, other_t(dx), _damp_grid(shape, dx, _damp_frac(d, role, ijob)[1], other_t), other_t, variants[0])
+                ko(field=(rng.standard_normal(shape) * 10).astype(other_t))
+                rec.count("other_precision_predecessors")
+            except Exception as e:
+                rec.note(f"other-precision predecessor failed: {type(e).__name__}: {e}")
+            break
+    for ijob, (w, shape, dx, role, variants) in enumerate(jobs):
+            distinct, frac = _damp_frac(d, role, ijob)
             if role == "sibling-origin":
-                frac = [0.4, -0.13] if d == 2 else [0.21, 0.4, -0.13]
                 rec.count("damping_calls_sibling_origin")
-            axes = [((np.arange(n) + 0.5) * dx + fr * n * dx).astype(real_t) for n, fr in zip(shape, frac)]
-            g = [np.ascontiguousarray(a) for a in np.meshgrid(*axes, indexing="ij")][::-1]  # x, y(, z)
+            g = _damp_grid(shape, dx, frac, real_t)
+            if role in ("tall", "sibling-dx"):
+                # the coordinate fields handed to the generator are non-contiguous views of the same values
+                g = [util.noncontiguous_copy(rng, a) for a in g]
+                rec.count("damping_kernels_from_noncontiguous_coordinate_fields")
             for var in variants:
                 meta = {"dim": d, "dtype": sh["dtype"], "shape": shape, "dx": dx, "width": w, "variant": var, "object": role, "axis_origin_fractions": frac}
                 if role == "first-again":
@@ -619,10 +858,7 @@ def _damp(sh, rec):
                     # dx as real_t (what the simulators pass); the dx sibling gets a python float
                     dx_arg = float(real_t(dx)) if role == "sibling-dx" else real_t(dx)
                     try:
-                        if d == 2:
-                            k = spne.gen_penalise_field_boundary_pyst_kernel_2d(width=w, dx=dx_arg, x_grid_field=g[0], y_grid_field=g[1], real_t=real_t, num_threads=2)
-                        else:
-                            k = spne.gen_penalise_field_boundary_pyst_kernel_3d(width=w, dx=dx_arg, x_grid_field=g[0], y_grid_field=g[1], z_grid_field=g[2], real_t=real_t, num_threads=2, field_type=var)
+                        k = _damp_gen(spne, d, w, dx_arg, g, real_t, var)
                     except Exception as e:
                         mech = "boundary-damping-generator-raises"
                         rec.violation(mech, f"{type(e).__name__}: {e} {meta}", {"meta": meta})
@@ -640,30 +876,29 @@ def _damp(sh, rec):
                 fields = _damp_fields(rng, shape, dist, w, real_t, lead)
                 if role.startswith("sibling") or role == "first-again":
                     fields = fields[:1] + fields[3:4]  # noise, zone-big
-                for kind, f0 in fields:
-                    f = f0.copy()
+
+                def count_call():
                     rec.count("damping_calls")
                     rec.count("damping_calls_distinct_origin_per_axis" if distinct else "damping_calls_common_origin")
                     rec.count(f"damping_width{w}_calls" if w < 2 else "damping_widthge2_calls")
                     if role != "pool":
                         rec.count("damping_calls_" + role.replace("-", "_"))
-                    try:
-                        if var == "vector":
-                            k(vector_field=f)
-                        else:
-                            k(field=f)
-                    except Exception as e:
-                        mech = "boundary-damping-width1-raises" if w == 1 else "boundary-damping-raises"
-                        rec.violation(mech, f"{type(e).__name__}: {e} {meta}", {"meta": meta, "field": f0})
-                        rec.case((d, sh["dtype"], var, w, kind, "raises"))
-                        continue
-                    rec.case((d, sh["dtype"], var, w, kind, role), sample={**meta, "field": kind} if kind == "noise" else None)
+
+                def call(f):
+                    if var == "vector":
+                        k(vector_field=f)
+                    else:
+                        k(field=f)
+
+                def judge(kind, f0, f, meta, tag=()):
+                    """f0: field before, f: field after the real kernel (both contiguous)"""
+                    rec.case((d, sh["dtype"], var, w, kind, role, *tag), sample={**meta, "field": kind} if kind == "noise" and not tag else None)
                     if w >= 2:
                         rec.count(f"damping_w{w}_seen")
                     wit = {"meta": meta, "kind": kind, "before": f0, "after": f}
                     if not np.all(np.isfinite(f.astype(np.float64))):
                         rec.violation("damping-nonfinite", f"{kind} {meta}", wit)
-                        continue
+                        return
                     # 1. outside the zone: bitwise
                     out_ok = util.bits_equal(f[..., ~zone], f0[..., ~zone])
                     rec.count("damping_outside_cells_bitwise", int((~zone).sum()) * max(1, len(lead) and 3))
@@ -671,7 +906,7 @@ def _damp(sh, rec):
                         bad = np.argwhere((f != f0) & ~zone)
                         rec.violation("damping-outside-zone-changed", f"{kind}: {len(bad)} cells outside the zone changed, first {bad[0].tolist() if len(bad) else '?'} {meta}", wit)
                     if w == 0:
-                        continue
+                        return
                     A = np.abs(f.astype(np.float64)).reshape((-1, *shape))
                     A0 = np.abs(f0.astype(np.float64)).reshape((-1, *shape))
                     for c in range(A.shape[0]):
@@ -690,6 +925,36 @@ def _damp(sh, rec):
                         if r > 1:
                             i = np.unravel_index(int(np.argmax(np.where(zone, A[c], -1.0))), shape)
                             rec.violation("damping-zone>inner-edge-max", f"{kind}: zone cell {tuple(int(x) for x in i)} = {zmax!r} > inner-edge max {M!r} {meta}", wit)
+
+                for kind, f0 in fields:
+                    # every third call: the field to be damped is a non-contiguous view (halo interior / every second cell / column-major)
+                    f = lay.next()(f0.copy())
+                    count_call()
+                    try:
+                        call(f)
+                    except Exception as e:
+                        mech = "boundary-damping-width1-raises" if w == 1 else "boundary-damping-raises"
+                        rec.violation(mech, f"{type(e).__name__}: {e} {meta}", {"meta": meta, "field": f0})
+                        rec.case((d, sh["dtype"], var, w, kind, "raises"))
+                        continue
+                    judge(kind, f0, np.ascontiguousarray(f), meta)
+                if role in ("pool", "tall"):
+                    # history of TEMPORARY views on this kernel object: the fields of three snapshots live in one owning array, call j
+                    # damps the view stack[j] (a fresh view object per call whose id() CPython recycles); judged afterwards
+                    sel = [fields[j] for j in (0, 3, 1)]
+                    S0 = np.stack([f_ for _, f_ in sel])
+                    S = S0.copy()
+                    try:
+                        for j in range(3):
+                            call(S[j])
+                    except Exception as e:
+                        mech = "boundary-damping-width1-raises" if w == 1 else "boundary-damping-raises"
+                        rec.violation(mech, f"history of temporary views: {type(e).__name__}: {e} {meta}", {"meta": meta})
+                        continue
+                    for j in range(3):
+                        count_call()
+                        rec.count("damping_calls_on_temporary_views")
+                        judge(sel[j][0], S0[j], S[j], {**meta, "history_call": f"{j + 1} of 3 on temporary views of different memory"}, ("temporary-view-history",))
 
 
 # ------------------------------------------------------------------------------------------------
@@ -736,8 +1001,12 @@ def _filter(sh, rec):
     even = [m for m in lattice if all(x % 2 == 0 for x in m)]
     recheck_prev = None  # closure re-checking the PREVIOUS filter object after the next one was generated and used
     prev_shape = None
+    lay = _Layout(rng, rec, "filter_calls_on_noncontiguous_field_views")
+    other_t = _other(real_t)
+    nobj = 0
     for order in sh["orders"]:
         for var in ("scalar", "vector"):
+            nobj += 1
             shape = util.shape3d(rng, 2 * order + 6, 2 * order + 14)
             if var == "vector" and order % 2 == 1:
                 # sibling object: SAME grid shape, precision, order and type as the scalar filter generated just before, other
@@ -747,8 +1016,22 @@ def _filter(sh, rec):
             prev_shape = shape
             rec.count("filter_shapes_first_axis_longer_than_x" if shape[0] > shape[-1] else "filter_shapes_x_longest_or_equal")
             meta = {"dtype": sh["dtype"], "type": ftype, "order": order, "variant": var, "shape": shape}
+            if nobj == 1:
+                # predecessor of the OTHER precision: same order, type, field type, thread count and grid shape (own work buffers),
+                # generated and called once before the first filter object of this shard exists
+                try:
+                    fo = spne.gen_laplacian_filter_kernel_3d(filter_order=order, filter_flux_buffer=np.zeros(shape, other_t), field_buffer=np.zeros(shape, other_t), real_t=other_t, num_threads=2, field_type=var, filter_type=ftype)
+                    fo(scalar_field=rng.standard_normal(shape).astype(other_t))
+                    rec.count("other_precision_predecessors")
+                except Exception as e:
+                    rec.note(f"other-precision predecessor failed: {type(e).__name__}: {e}")
             fb = np.empty(shape, real_t)
             bb = np.empty(shape, real_t)
+            if nobj % 3 == 2:
+                # the two work buffers bound at generation are NON-contiguous views (scratch carved out of a larger allocation)
+                fb = util.noncontiguous_copy(rng, fb)
+                bb = util.noncontiguous_copy(rng, bb)
+                rec.count("filter_objects_with_noncontiguous_work_buffers")
             _garbage(rng, (fb, bb), "finite")
             try:
                 filt = spne.gen_laplacian_filter_kernel_3d(filter_order=order, filter_flux_buffer=fb, field_buffer=bb, real_t=real_t, num_threads=2, field_type=var, filter_type=ftype)
@@ -765,9 +1048,10 @@ def _filter(sh, rec):
                 _garbage(rng, (fb, bb), ("finite", "nan")[gi[0] % 2])  # whole arrays, OUTER RING included, before EVERY call
                 if gi[0] >= 2:
                     rec.count("filter_calls_2nd_or_later_with_dirty_buffer_rings")
-                g = np.ascontiguousarray(a.astype(real_t))
+                # every third call: the field to be filtered is a non-contiguous view of the same values
+                g = lay.next()(np.ascontiguousarray(a.astype(real_t)))
                 call(g)
-                return g
+                return np.ascontiguousarray(g)
 
             def call(g):
                 try:
@@ -875,6 +1159,31 @@ def _filter(sh, rec):
                                 rec.count("filter_amplification_cells", int(big.sum()))
                                 if ratio.min() < -sl or ratio.max() > 1 + sl:
                                     rec.violation("filter-amplification-outside-[0,1]", f"m={mm[c]}: measured amplification in [{ratio.min()!r}, {ratio.max()!r}] {meta}", {"meta": meta, "m": mm[c]})
+                # 3b. history of TEMPORARY views on this filter object: four plane waves live in one owning array, call j filters the
+                # view stack[j] (a fresh view object per call whose id() CPython recycles; work buffers dirtied once before the loop);
+                # judged afterwards against the same symbols at the same tolerance
+                K = 4
+                hm_ = [[lattice[int(i)] for i in rng.choice(len(lattice), size=nc, replace=False)] for _ in range(K)]
+                hamp = [float(rng.choice([1.0, 3.7, 250.0])) for _ in range(K)]
+                A_ = np.stack([np.stack([_wave(mi, ("cos", "sin")[j % 2], X, Y, Z, hamp[j]) for mi in hm_[j]]).reshape(full) for j in range(K)])
+                S_ = np.ascontiguousarray(A_.astype(real_t))
+                _garbage(rng, (fb, bb), "finite")
+                for j in range(K):
+                    call(S_[j])
+                rec.count("filter_calls_on_temporary_views", K)
+                for j in range(K):
+                    G = S_[j].astype(np.float64).reshape((nc, *shape))
+                    Aq = A_[j].reshape((nc, *shape))
+                    rec.count("filter_plane_waves", nc)
+                    rec.case((*base, "wave", "temporary-view-history"))
+                    for c in range(nc):
+                        sym = _symbol(hm_[j][c], order, ftype)
+                        tol = 8 * eps * (3 + order) * hamp[j]
+                        e = np.abs(G[c][I[1:]] - sym * Aq[c][I[1:]])
+                        r = float(np.max(e) / tol) if np.all(np.isfinite(e)) else float("inf")
+                        rec.stat("filter_symbol", r)
+                        if not (r <= 1):
+                            rec.violation("filter-symbol", f"m={hm_[j][c]} k=pi*m/8, call {j + 1} of {K} on temporary views of different memory: interior output differs from symbol {sym:.6g} x input by {r:.3g} tol {meta}", {"meta": meta, "m": hm_[j][c], "in": A_[j], "out": S_[j]})
                 # 4. history independence: same input, three different buffer garbages, identical bytes
                 for kind in ("noise", "big", "checker", "spikes"):
                     a = util.field(rng, full, kind, real_t)
